@@ -167,7 +167,8 @@ def fresh_of_sort(I, sort, name):
 
 def call_inv(I, spec, k, env):
     f = I.lift(spec.invariant)
-    params = list(inspect.signature(spec.invariant).parameters)
+    sig = inspect.signature(spec.invariant).parameters
+    params = list(sig)
     kwargs = {}
     for p in params:
         if p == 'k':
@@ -176,6 +177,9 @@ def call_inv(I, spec, k, env):
             try:
                 kwargs[p] = env.lookup(p)
             except KeyError:
+                if sig[p].default is not inspect.Parameter.empty:
+                    kwargs[p] = I.lift(sig[p].default)      # optional local (defined on some paths only)
+                    continue
                 raise Unsupported(f'invariant {spec.name} mentions unknown local {p!r} '
                                   f'(renamed local? the loop proof is lost, not the property)')
     return truthy(I.call(f, [], kwargs))
@@ -217,6 +221,8 @@ def invariant_loop(I, node, env, src, spec):
     I.ex.prove(f'{qual}:loop[{spec.name}]:init', call_inv(I, spec, z3.IntVal(0), env), kind='loop-init')
     step = I.ex.choose(z3.Bool(fresh_name('loop.step')))
     for name, sort in spec.havoc.items():
+        if not _is_live(name, env):
+            continue        # a local that exists on some paths only (e.g. `if flag: duplicates = {}`)
         if sort in ('symdict', 'symset', 'symlist', 'list_of_symlist'):
             symcoll.havoc(env.lookup(name), name)       # in place: bound-method aliases keep pointing at it
         else:
